@@ -32,6 +32,12 @@ def Series.new (t : Array Int) (rows : Array Nat) (sup : Option (Array (Int × I
       let ix := jitrestrict ts (pairsSt p) (pairsEn p) (pairs_size p)
       ⟨gatherI ts ix, gatherN rows ix, p⟩
 
+/-- `x.restrict(ep)` for an IntervalSet `ep` (already canonical: it is an IntervalSet object):
+`_restrict` selects, then `_define_instance` runs the constructor on the selection -/
+def Series.restrictTo (s : Series) (p : Array (Int × Int)) : Series :=
+  let r := Series.new s.t s.rows (some p)
+  Series.new r.t r.rows (some p)
+
 def Series.rateNum (s : Series) : Nat := s.t.size
 def Series.rateDen (s : Series) : Int := s.sup.foldl (fun acc p => acc + (p.2 - p.1)) 0
 
@@ -72,10 +78,7 @@ inductive Op where
 deriving Repr
 
 def Series.step (s : Series) : Op → Series
-  | .restrict e =>
-    -- `_restrict` selects, then `_define_instance` runs the constructor on the selection
-    let r := Series.new s.t s.rows (some (e.eval s.sup))
-    Series.new r.t r.rows (some (e.eval s.sup))
+  | .restrict e => s.restrictTo (e.eval s.sup)
   | .take ix =>
     if ix.all (· < s.t.size) then Series.new (gatherI s.t ix) (gatherN s.rows ix) (some s.sup) else s
   | .get a b =>
